@@ -23,6 +23,29 @@ CHECKS = {
    design_ref="DESIGN.md section 6 C04, section 11"),
 }
 
+CHECKS["C15"] = dict(
+   technique="Coq proof over a model regenerated from source by a Python-ast -> Gallina translator: induction over diagnostic sequences; differential + end-to-end trace replay",
+   text=("Theorems C15_exit_iff_contract, C15_buckets_are_sums, C15_exit_is_0_or_1, C15_documented_weights, "
+         "C15_threshold_checked_after_simplification_before_output (coq/props/C15.v): for EVERY option setting with threshold >= 0 and EVERY "
+         "sequence of diagnostics (levels, non-negative weights, places; analysis then simplification) the run built from the GENERATED "
+         "functions (error.info/warning/error/fatal, Config.increment_badness, is_within_badness_threshold, main()'s phase order - "
+         "translated from /repo's source on every run, fail-closed) exits 1 iff the documented contract says so, never raises, and each "
+         "bucket is the sum of the weights emitted in its place. The generated model is additionally run against the real functions on random "
+         "event sequences and against real runs of main() on generated programs at boundary thresholds; the Coq checker check_C15 judges "
+         "rattr's own exit status and buckets."),
+   note=COMMON_NOTE + "Additionally trusted: the translator harness/translate_decision.py and the primitives of coq/model/DiagMonad.v (State fields, current-file test, stderr print as log append, sys.exit, raise ValueError); the recording driver harness/run_main.py. Which weight each call site passes is covered by the generated table lemma explicit_weights_documented plus the end-to-end traces, not by a model of every call site.",
+   design_ref="DESIGN.md section 4.2, 6 C15, 11")
+CHECKS["C16"] = dict(
+   technique="Coq proof (non-interference + subsequence by induction over diagnostic sequences) over the source-regenerated model; syntactic frame lemma over generated reader table; 16-combination end-to-end runs",
+   text=("Theorems C16_verbosity_only_filters_lines, C16_exit_status_independent, C16_errors_and_fatals_always_printed (coq/props/C16.v) over the "
+         "regenerated gen/DiagGen.v: for every diagnostic sequence and every two warning levels wl1 <= wl2 the badness buckets and outcome are equal and "
+         "the lines printed at wl1 are a subsequence of those at wl2; errors/fatals always print. That no other module reads a verbosity or path-format "
+         "option is the generated-table lemma flag_readers_confined. Each generated program is really run under all 4x2x2 -w/-H/-T combinations "
+         "(x strict / boundary threshold, -o results / -o ir, deep relative and absolute-under-$HOME targets): stdout bytes, exit status, buckets equal; "
+         "Coq checker check_C16_pair judges the chain none<=local<=default<=all."),
+   note=COMMON_NOTE + "Path formatting (-H/-T) is outside the Coq model: its non-interference rests on the syntactic frame lemma (attribute reads by name, getattr with literal name) and on the end-to-end runs.",
+   design_ref="DESIGN.md section 4.1, 4.2, 6 C16, 11")
+
 NOT_YET = {}
 
 def main():
